@@ -236,6 +236,20 @@ def projection_handlers(model, ctx, cls, vs):
                 continue
             t = strip_sites(fa.term_of(f.args[1]))
             table = None
+            # a local {ast class: "method name"} literal consulted with type(<visited value>)
+            loc = None
+            if t[0] == "app" and t[1][0] == "attr" and t[1][2] == "get" and t[1][1][0] == "dict" and len(t[2]) == 1:
+                loc, key = t[1][1], t[2][0]
+            elif t[0] == "subscript" and t[1][0] == "dict":
+                loc, key = t[1], t[2]
+            if loc is not None and key == ("app", ("global", "builtins.type"), (V,), ()):
+                for k_t, v_t in loc[1]:
+                    if isinstance(k_t, tuple) and k_t[0] == "global" and k_t[1] in LITERAL_KINDS and v_t[0] == "const" and isinstance(v_t[1], str):
+                        h = model.find_method(cls, v_t[1])
+                        if h is not None:
+                            out[k_t[1]] = (_delegate(model, cls, h), c)
+                            tests.append((V, k_t[1].split(".")[-1], c))
+                continue
             if t[0] == "app" and t[1][0] == "global" and t[1][1].endswith(".get") and len(t[2]) == 1:
                 table, key = t[1][1][: -len(".get")], t[2][0]
             elif t[0] == "subscript" and t[1][0] == "global":
